@@ -29,6 +29,8 @@ pub struct Opts {
     pub doc_attributes: bool,
     pub format_strings: bool,
     pub reorder_impl_items: bool,
+    /// wrap_comments / normalize_comments / format_code_in_doc_comments re-flow doc comments
+    pub rewrites_doc_comments: bool,
 }
 
 impl Opts {
@@ -43,6 +45,7 @@ impl Opts {
             doc_attributes: on("normalize_doc_attributes"),
             format_strings: on("format_strings"),
             reorder_impl_items: on("reorder_impl_items"),
+            rewrites_doc_comments: on("wrap_comments") || on("normalize_comments") || on("format_code_in_doc_comments"),
         }
     }
 }
@@ -533,9 +536,7 @@ impl<'a> Norm<'a> {
     /// `macro_rules!` / `macro`: arms `matcher => { body }` separated by `;` (the last
     /// one optional); bodies as code where they parse.
     fn norm_macro_def(&mut self, def: &mut ast::MacroDef) {
-        if !def.macro_rules {
-            return;
-        }
+        // `macro name(matcher) { body }` is stored as the single arm `(matcher) => { body }`
         let trees: Vec<TokenTree> = def.body.tokens.iter().cloned().collect();
         let mut out: Vec<TokenTree> = vec![];
         let mut i = 0;
@@ -775,7 +776,28 @@ pub fn canon(src: &str, edition: u16, opts: &Opts) -> Result<Canon, String> {
         let mut toks = vec![];
         flatten_tokens(&ts, &mut toks);
         let _ = smallvec![0u8; 0] as SmallVec<[u8; 1]>;
-        Ok(Canon { tokens: post_tokens(toks), use_runs: ur.out })
+        let mut tokens = post_tokens(toks);
+        if opts.rewrites_doc_comments {
+            // the comment-rewriting options may re-flow doc comments: consecutive doc comments are
+            // compared as one word sequence (C03's rule for rewritten comments)
+            let mut merged: Vec<String> = vec![];
+            for t in tokens {
+                if let Some(body) = t.strip_prefix("doc:") {
+                    let words: Vec<&str> = body.splitn(3, ':').nth(2).unwrap_or("").split_whitespace().collect();
+                    match merged.last_mut() {
+                        Some(last) if last.starts_with("docwords:") => {
+                            last.push(' ');
+                            last.push_str(&words.join(" "));
+                        }
+                        _ => merged.push(format!("docwords: {}", words.join(" "))),
+                    }
+                } else {
+                    merged.push(t);
+                }
+            }
+            tokens = merged;
+        }
+        Ok(Canon { tokens, use_runs: ur.out })
     })
 }
 
